@@ -104,7 +104,7 @@ def main():
             cen = M.census(recs, cfg) if f.get('census') else None
             if cen is not None and f.get('census_exclude'):
                 ex = set(f['census_exclude'])
-                cen = [(lab, idx) for lab, idx in cen if lab not in ex]
+                cen = [t for t in cen if t[0] not in ex]
             prepared[fid] = (recs, cen)
         seen_states = set()
         for n, (fid, fault, delivery, options) in enumerate(job['cases']):
@@ -124,9 +124,10 @@ def main():
             if cen is not None and not expect_error and delivery != 'cli':
                 # a label is expected iff none of its defining records (one per
                 # conformation that carries the atom) was lost
-                gone = set(lab for lab, idx in cen if idx in lost)
+                gone = set(lab for lab, idx, deps in cen
+                           if idx in lost or any(d in lost for d in deps))
                 expected = []
-                for lab, idx in cen:
+                for lab, idx, deps in cen:
                     if lab not in gone and lab not in expected:
                         expected.append(lab)
             out = run_case(text, f['stem'], delivery, options,
